@@ -59,6 +59,10 @@ Judge(o, req, tn, drop, hl, hlFlag, lost, nl) ==
      /\ SnapOK(Ev.snap, o.t, o.l)
      /\ KvOK(Ev.kv, o.l)
      /\ GcJudged => GcExplained(G, o.t, o.l, req, tn, IF eff THEN drop ELSE {}, IF eff THEN lost ELSE {})
+     \* C20-collects-chunk-of-rename-copy is as narrow as the defect: a scheduled chunk that is still referenced and is
+     \* not the shared record of the operated name itself (hl) must involve a PLAIN entry showing it before or after
+     \* (the plain copy a rename made of a linked name); chunks that only hard-link records show are never excused
+     /\ GcJudged => (GcOver(G, o.t, o.l, tn) \ (IF eff THEN hl ELSE {})) \subseteq (PlainChunks(tree) \cup PlainChunks(o.t))
      /\ F \subseteq KF /\ used' = used \cup F
      /\ tree' = o.t /\ links' = o.l
      /\ gc' = gc \cup G
